@@ -6,7 +6,7 @@
 #include <sodium.h>
 #include "../sched/rt.h"
 
-static unsigned long long n_exec, n_points_total, n_races, n_maxpts, n_outcomes_new;
+static unsigned long long n_exec, n_points_total, n_races, n_maxpts, n_outcomes_new; static unsigned long long n_profile_miss;
 static int BOUND;
 
 #include "c19_ops.h"
@@ -39,6 +39,7 @@ static int run_once(const cfg_t *c, const uint8_t *prefix, int plen)
         _exit(0);
     }
     waitpid(pid, &st, 0);
+    n_profile_miss += (unsigned long long) TR->profile_miss;
     n_exec++; n_points_total += (unsigned long long) TR->npoints; if ((unsigned long long) TR->npoints > n_maxpts) n_maxpts = (unsigned long long) TR->npoints;
     if (WIFSIGNALED(st)) return CRASH_BASE + WTERMSIG(st);
     if (WEXITSTATUS(st) != 0) return CRASH_BASE + 90;
@@ -134,7 +135,7 @@ static void worker_dev(long k)
 }
 static void fin(void)
 {
-    vf_stat("executions", n_exec); vf_stat("choice_points", n_points_total); vf_stat("races", n_races); vf_stat("max_points", n_maxpts); vf_stat("outcomes", n_outcomes_new);
+    vf_stat("executions", n_exec); vf_stat("choice_points", n_points_total); vf_stat("races", n_races); vf_stat("max_points", n_maxpts); vf_stat("outcomes", n_outcomes_new); vf_stat("profile_misses", n_profile_miss); n_profile_miss = 0;
     n_exec = n_points_total = n_races = n_outcomes_new = 0;
 }
 static void explore_parallel(const cfg_t *c)
@@ -158,7 +159,7 @@ static void compute_reference(void)
     int pfd[2], i; pid_t pid; int64_t buf[1 + 128];
     if (pipe(pfd)) exit(2);
     fflush(stdout); pid = fork();
-    if (pid == 0) { buf[0] = sodium_init(); ops_shared_setup(); for (i = 0; i < NOPS; i++) buf[1 + i] = OPS[i].fn(); if (write(pfd[1], buf, sizeof buf) < 0) _exit(3); _exit(0); }
+    if (pid == 0) { sch_profile(1); buf[0] = sodium_init(); ops_shared_setup(); for (i = 0; i < NOPS; i++) buf[1 + i] = OPS[i].fn(); sch_profile(0); if (write(pfd[1], buf, sizeof buf) < 0) _exit(3); _exit(0); }
     close(pfd[1]); if (read(pfd[0], buf, sizeof buf) != (ssize_t) sizeof buf) { fprintf(stderr, "reference child failed\n"); exit(2); } close(pfd[0]); waitpid(pid, NULL, 0);
     if (buf[0] != 0) { fprintf(stderr, "reference init failed\n"); exit(2); }
     for (i = 0; i < NOPS; i++) REF_OPS[i] = buf[1 + i];
@@ -183,6 +184,7 @@ int main(int argc, char **argv)
     const char *mode = argc > 1 ? argv[1] : "init"; int thorough, a, b;
     vf_init_seed(); thorough = vf_tier_thorough();
     private_trace();
+    sch_profile_alloc();
     compute_reference();
     if (!strcmp(mode, "init")) {
         int nthr = argc > 2 ? atoi(argv[2]) : 2; cfg_t c; c.nthreads = nthr; c.body = body_init; c.pre_init = 0;
@@ -194,7 +196,7 @@ int main(int argc, char **argv)
         int n = 0; const char *sel = argc > 3 ? argv[3] : "all";
         BOUND = argc > 2 ? atoi(argv[2]) : 1;
         for (a = 0; a < NOPS; a++) for (b = 0; b < NOPS; b++) {
-            int keep = !strcmp(sel, "all") || a == b || b == (a + 1) % NOPS || b == (a + 7) % NOPS || a == 2 || b == 2 || a == 12 || b == 12 || a == 24 || b == 24 || a == 23 || b == 23;
+            int keep = !strcmp(sel, "self") ? a == b : !strcmp(sel, "all") || a == b || b == (a + 1) % NOPS || b == (a + 7) % NOPS || a == 2 || b == 2 || a == 12 || b == 12 || a == 24 || b == 24 || a == 23 || b == 23;
             /* "core": every operation against itself, against two neighbours, and against guarded allocation (2), the default RNG (12),
              * sodium_init-again (24) and set_misuse_handler (23) in both orders */
             if (keep && n < MAXPAIRS) { PAIRS[n][0] = a; PAIRS[n][1] = b; n++; }
